@@ -37,6 +37,7 @@ type Rule struct {
 	LogLevel       string // numeric
 	Mark           int    // -1 = none
 	Raw            string // set if the rule could not be modelled
+	Comment        string // -m comment --comment "..."
 }
 
 type Chain struct {
@@ -63,7 +64,14 @@ func (r Rule) Key() string {
 	}
 	return fmt.Sprintf("i=%s o=%s s=%v%s d=%v%s p=%s sp=%s dp=%s icmp=%s st=%v nsyn=%v t=%s g=%v ll=%s m=%d f=%v",
 		r.In, r.Out, r.SrcNeg, r.Src, r.DstNeg, r.Dst, r.Proto, r.Sport, r.Dport, r.IcmpType,
-		r.State, r.NotSyn, r.Target, r.Goto, r.LogLevel, r.Mark, r.Frag)
+		r.State, r.NotSyn, r.Target, r.Goto, r.LogLevel, r.Mark, r.Frag) + commentKey(r.Comment)
+}
+
+func commentKey(c string) string {
+	if c == "" {
+		return ""
+	}
+	return " c=" + c
 }
 
 // Canon returns a canonical text of the whole ruleset.
@@ -239,6 +247,8 @@ func ParseRule(line string) (chain string, r Rule, ok bool) {
 			} else {
 				return fail()
 			}
+		case "--comment":
+			r.Comment = strings.Trim(arg, `"`)
 		case "-j":
 			r.Target = arg
 		case "-g":
@@ -422,6 +432,9 @@ func KernelRule(chain string, r Rule) string {
 		}
 		w = append(w, "-m", "state", "--state", strings.Join(l, ","))
 	}
+	if r.Comment != "" {
+		w = append(w, "-m", "comment", "--comment", `"`+r.Comment+`"`)
+	}
 	if r.Goto {
 		w = append(w, "-g", r.Target)
 	} else if r.Target != "" {
@@ -568,6 +581,9 @@ func NetspocRule(chain string, r Rule, rng *rand.Rand) string {
 			}
 		}
 		w = append(w, "-m", "state", "--state", strings.Join(st, ","))
+	}
+	if r.Comment != "" {
+		w = append(w, "-m", "comment", "--comment", `"`+r.Comment+`"`)
 	}
 	if !targetFirst {
 		target()
